@@ -62,6 +62,10 @@ func (w *World) AddAir(name string) *AirNode {
 		Mnemonic:  mn,
 		Password:  []byte(fmt.Sprintf("pw-%d-%x", idx, r.Next())),
 	}
+	if w.LongPasswords {
+		// a passphrase well beyond any key size
+		a.Password = []byte(fmt.Sprintf("correct horse battery staple %d / %x / %x / %x", idx, r.Next(), r.Next(), r.Next()))
+	}
 	_ = os.MkdirAll(a.ResultDir, 0o755)
 	w.Airs = append(w.Airs, a)
 	return a
